@@ -59,6 +59,10 @@ type MemData struct {
 	ObjectLike bool // reads through an open handle fail once the file is tombstoned
 	ShortWrite bool // a failing Write applies half of the bytes first
 	DeferredGC bool // TombstoneFile only marks the file; its bytes stay readable (garbage collected later)
+	// CtxAwareReads: handles honour the context OpenFile was called with — a Read (or Seek)
+	// on a handle whose context has ended fails with that context's error (an object store
+	// client aborting an in-flight request).
+	CtxAwareReads bool
 
 	// ReadLog, when set, observes every Read of every handle (offset before the read, bytes read).
 	ReadLog func(ptr string, off int64, n int)
@@ -155,6 +159,7 @@ func (w *MemWriter) abort() error {
 // MemHandle is a read handle with use accounting.
 type MemHandle struct {
 	d      *MemData
+	ctx    context.Context
 	Ptr    string
 	data   []byte
 	pos    int64
@@ -175,7 +180,7 @@ func (d *MemData) OpenFile(ctx context.Context, ptrBytes []byte) (io.ReadSeekClo
 	data, ok := d.files[ptr]
 	var h *MemHandle
 	if ok {
-		h = &MemHandle{d: d, Ptr: ptr, data: data}
+		h = &MemHandle{d: d, ctx: ctx, Ptr: ptr, data: data}
 		d.Opens++
 		d.Handles = append(d.Handles, h)
 	}
@@ -219,6 +224,13 @@ func (h *MemHandle) Read(p []byte) (int, error) {
 		err := fmt.Errorf("memdata: object %q was deleted", h.Ptr)
 		h.d.Hook.exit("Read", h.Ptr, err)
 		return 0, err
+	}
+	if h.d.CtxAwareReads && h.ctx != nil {
+		if err := h.ctx.Err(); err != nil {
+			err = fmt.Errorf("memdata: read aborted: %w", err)
+			h.d.Hook.exit("Read", h.Ptr, err)
+			return 0, err
+		}
 	}
 	if h.pos >= int64(len(h.data)) {
 		h.d.Hook.exit("Read", h.Ptr, io.EOF)
